@@ -795,6 +795,13 @@ func (m *Manager) configureTasks(envId uid.ID, tasks Tasks) error {
 		if respError != nil {
 			errText := respError.Error()
 			if len(strings.TrimSpace(errText)) != 0 {
+				// A command with a single target is answered with a plain response: the same rule as for a
+				// multi-response applies, only a critical task makes the transition fail.
+				if len(tasks) == 1 && !isTaskOrRoleCritical(tasks[0]) {
+					log.WithField("partition", envId).
+						Warnf("CONFIGURE could not complete for non-critical task, error: %s", errText)
+					return nil
+				}
 				return errors.New(response.Err().Error())
 			}
 			// FIXME: improve error handling ↑
@@ -880,6 +887,13 @@ func (m *Manager) transitionTasks(envId uid.ID, tasks Tasks, src string, event s
 		if respError != nil {
 			errText := respError.Error()
 			if len(strings.TrimSpace(errText)) != 0 {
+				// A command with a single target is answered with a plain response: the same rule as for a
+				// multi-response applies, only a critical task makes the transition fail.
+				if len(tasks) == 1 && !isTaskOrRoleCritical(tasks[0]) {
+					log.WithField("partition", envId).
+						Warnf("%s could not complete for non-critical task, error: %s", event, errText)
+					return nil
+				}
 				return errors.New(response.Err().Error())
 			}
 			// FIXME: improve error handling ↑
@@ -887,6 +901,18 @@ func (m *Manager) transitionTasks(envId uid.ID, tasks Tasks, src string, event s
 	}
 
 	return nil
+}
+
+// isTaskOrRoleCritical tells whether a failure of this task must fail a transition: its own traits or those of its
+// parent role say critical.
+func isTaskOrRoleCritical(task *Task) bool {
+	if task == nil {
+		return false
+	}
+	if task.GetTraits().Critical {
+		return true
+	}
+	return task.parent != nil && task.parent.GetTaskTraits().Critical
 }
 
 func (m *Manager) TriggerHooks(envId uid.ID, tasks Tasks) error {
